@@ -4,16 +4,20 @@ package main
 import (
 	"fmt"
 	"os"
+	"runtime/debug"
 
+	"github.com/cedar-policy/cedar-go/verif/c01"
 	"github.com/cedar-policy/cedar-go/verif/c20"
 	"github.com/cedar-policy/cedar-go/verif/core"
 )
 
 var registry = map[string]func() *core.Check{
+	"C01": c01.Check,
 	"C20": c20.Check,
 }
 
 func main() {
+	debug.SetGCPercent(400)
 	if len(os.Args) < 2 {
 		fmt.Fprintln(os.Stderr, "usage: mc <id> quick|thorough | mc <id> --replay <file>")
 		os.Exit(2)
